@@ -1,9 +1,13 @@
 #!/bin/bash
-# Runs every patch under mutants/ and seeded/ through tools/mutant.py (own property's check) and prints one line each.
+# Runs every patch under mutants/ and seeded/ through tools/mutant.py (own property's check + meta.json also_run) and prints one
+# line each.  PAR=<n> runs n patches at a time (default 1).
 cd /verif
-for d in ${@:-mutants/* seeded/*}; do
-  [ -f $d/patch.diff ] || continue
+one() {
+  d=$1
+  [ -f $d/patch.diff ] || exit 0
   out=$(python3 tools/mutant.py $d/patch.diff 2>&1)
   echo "$d :: $(echo "$out" | grep SUMMARY)"
   echo "$out" > $d/last_run.txt
-done
+}
+export -f one
+printf '%s\n' ${@:-mutants/* seeded/*} | xargs -P ${PAR:-1} -I{} bash -c 'one {}'
